@@ -277,6 +277,25 @@ pub fn boundary_families(full: bool) -> Vec<(String, String)> {
         push("bf:hexpos-tag2", format!("- !e%4{c} a\n"));
         push("bf:hexpos-directive", format!("%TAG !e! tag:%{c}1\n--- !e!x a\n"));
     }
+    // characters whose code point ends in the byte of a YAML-significant ASCII character (U+01xx, U+4Exx, U+20xx), where
+    // that ASCII character would change the parse
+    for b in [0x09u32, 0x0a, 0x0d, 0x20, 0x22, 0x23, 0x26, 0x27, 0x2a, 0x2c, 0x2d, 0x2e, 0x3a, 0x3e, 0x3f, 0x5b, 0x5d, 0x7b, 0x7c, 0x7d, 0x00, 0x25, 0x21, 0x40, 0x60] {
+        for hi in [0x100u32, 0x4e00, 0x2000, 0x1f600] {
+            if let Some(c) = char::from_u32(hi + b) {
+                push("bf:lowbyte-plain", format!("{c}a: {c}\n"));
+                push("bf:lowbyte-seq", format!("- {c}\n- a{c}b\n-{c}x\n"));
+                push("bf:lowbyte-folded", format!(">\n a\n {c}\n b\n"));
+                push("bf:lowbyte-literal", format!("k: |\n  a\n  {c}b\n {c}\n"));
+                push("bf:lowbyte-quoted", format!("\"a\n {c}\n b{c}\"\n"));
+                push("bf:lowbyte-single", format!("k: 'a{c}\n  {c}b'\n"));
+                push("bf:lowbyte-flow", format!("[a{c}, {c}b, {c}: {c}]\n"));
+                push("bf:lowbyte-multiline-plain", format!("a\n {c}\n{c}b: c\n"));
+                push("bf:lowbyte-comment", format!("a: b #{c}\n{c}# c\nk: v {c}# c\n"));
+                push("bf:lowbyte-anchor", format!("- &a{c} x\n- *a{c}\n- !t{c} y\n"));
+                push("bf:lowbyte-doc", format!("---{c}a\n...{c}\n%YAML{c}1.2\n"));
+            }
+        }
+    }
     // inputs ending after every token kind, with and without final break
     for t in ["a", "- a", "- ", "-", "k:", "k: v", "? k", "? ", ": v", "[a", "[a,", "[a]", "{a", "{a: b", "{a: b}", "&a", "&a b", "*a", "!t", "!!str a", "|", ">", "|+", "|-", ">2", "'a'", "'a", "\"a\"", "\"a", "\"a\\", "---", "--- a", "...", "%YAML 1.2", "%TAG ! x", "# c", "a #c", "a:", "a: |", "- |", "- >-", "k: |2", "k: &a", "k: !t", "k: *a"] {
         push("bf:ending", t.to_string());
